@@ -101,7 +101,7 @@ def check(prop, tier, seed, out):
         # end-to-end slice: time options reaching the loop through the real runner (attribute, group, CLI, DIVAN_*, builder; also
         # a lone run-time `skip_ext_time = false`), judged on the calls each benchmark made under the scripted clock
         from . import treecheck
-        jobs = [j for j in treecheck.make_jobs("C15", "quick", seed + 400) if j[1].intent.action == "bench"]
+        jobs = [j for j in treecheck.make_jobs("C04", "quick", seed + 400) if j[1].intent.action == "bench"]
         if tier == "quick":
             jobs = jobs[:240]
         e2e, _, _ = treecheck.run_jobs(prop, jobs, out, want={prop})
